@@ -20,6 +20,15 @@ pub fn gen_c17_case(g: &mut G) -> Value {
         let item = g.pick(&[json!({"type": "integer"}), json!({"type": "string"}), json!({"type": "boolean"})]).clone();
         doc["definitions"]["BigArrayHolder"] = json!({"type": "object", "properties": {"big": {"type": "array", "items": item, "minItems": n, "maxItems": n}}, "required": ["big"]});
     }
+    // an untagged union whose alternatives all offer FromStr/Display, defined before / after the
+    // definition that one alternative refers to (what the API claims must not depend on that order)
+    if g.chance(1, 3) {
+        doc["definitions"]["AaUnionFirst"] = json!({"oneOf": [{"$ref": "#/definitions/ZzSide"}, {"type": "integer"}]});
+        doc["definitions"]["ZzSide"] = json!({"type": "string", "enum": ["left", "right"]});
+        doc["definitions"]["ZzUnionLast"] = json!({"oneOf": [{"$ref": "#/definitions/AaSide"}, {"type": "integer"}]});
+        doc["definitions"]["AaSide"] = json!({"type": "string", "enum": ["up", "down"]});
+        doc["definitions"]["MmUnionOfUnions"] = json!({"oneOf": [{"$ref": "#/definitions/ZzUnionLast"}, {"type": "boolean"}]});
+    }
     let mut settings = settings(g, &doc, true);
     // patches rename types: keep (the API must follow), replacements too
     if g.chance(1, 2) {
